@@ -35,6 +35,7 @@ type C10Case struct {
 	Seed     int64     `json:"seed"`
 	Counts   []int     `json:"counts,omitempty"`
 	countsMap map[string]int
+	ViaCli   bool      `json:"via_cli,omitempty"` // support runs: every execution goes through the command tree (--seed s, s+1, ...)
 	Sched    bool      `json:"sched,omitempty"` // replay runs: the second and third execution run under two seeded goroutine schedules (an operation may start goroutines of its own)
 	MapSeeds [2]uint64 `json:"map_seeds"`
 	Clocks   [2]int64  `json:"clocks"`
@@ -106,6 +107,20 @@ func (c10) Gen(rs uint64, tier string, race bool) interface{} {
 			c.A = r.PickS0(0.5, 1)
 			c.B = 0
 		}
+		if c.Op != "bootstrap" && r.Chance(0.012) {
+			c.ViaCli = true
+			if c.Op == "shuffle-sites" && r.Bool() {
+				// sequences that differ by indels only: one kind of residue per column, a gap in some of them
+				k := r.Pick(4, 5)
+				c.Aln = AlnSpec{Alphabet: align.NUCLEOTIDS}
+				for i := 0; i < k; i++ {
+					b := []byte("ACGTACGT"[:k+1])
+					b[i] = '-'
+					c.Aln.Names = append(c.Aln.Names, fmt.Sprintf("t%d", i))
+					c.Aln.Seqs = append(c.Aln.Seqs, string(b))
+				}
+			}
+		}
 		return c
 	}
 	a := &c.Aln
@@ -169,6 +184,10 @@ func (c10) Gen(rs uint64, tier string, race bool) interface{} {
 
 // cliArgs: the command line that asks goalign for the operation of the case.
 func (c *C10Case) cliArgs() (args []string, files map[string]string) {
+	return c.cliArgsSeed(c.Seed)
+}
+
+func (c *C10Case) cliArgsSeed(seed int64) (args []string, files map[string]string) {
 	var fa strings.Builder
 	for i, n := range c.Aln.Names {
 		fmt.Fprintf(&fa, ">%s\n%s\n", n, c.Aln.Seqs[i])
@@ -214,7 +233,54 @@ func (c *C10Case) cliArgs() (args []string, files map[string]string) {
 	default:
 		panic("op " + c.Op)
 	}
-	args = append(args, "-i", "in.fa", "-t", "1", "--seed", fmt.Sprint(c.Seed))
+	args = append(args, "-i", "in.fa", "-t", "1", "--seed", fmt.Sprint(seed))
+	return
+}
+
+// applyCLI: the operation of the case asked of the command tree with the given seed; what it printed as an opResult.
+func (c *C10Case) applyCLI(ctx *Ctx, seed int64) (res opResult, what string, ok bool) {
+	if seed == -1 {
+		seed = -2 // -1 means "no seed" to the command line
+	}
+	args, files := c.cliArgsSeed(seed)
+	what = "goalign " + strings.Join(args, " ")
+	a := runInProc(ctx, args, files, c.MapSeeds[0], c.Clocks[0])
+	for _, p := range a.sr.Panics {
+		if p.Exit < 0 {
+			res.err = "panic: " + p.Panic
+			return res, what, false
+		}
+	}
+	if a.sr.Deadlock || a.sr.Budget || a.exit >= 0 || a.err != nil {
+		res.err = fmt.Sprintf("exit %d, error %v, deadlock %v", a.exit, a.err, a.sr.Deadlock || a.sr.Budget)
+		return res, what, false
+	}
+	res = c.cliResult(a)
+	return res, what, true
+}
+
+func (c *C10Case) cliResult(a inprocResult) (res opResult) {
+	res.names, res.seqs = parseFastaText(a.files["stdout.txt"])
+	for i := range res.names {
+		res.rows = append(res.rows, res.names[i]+":"+res.seqs[i])
+	}
+	rogues := strings.Fields(string(a.files["rogues.txt"]))
+	switch c.Op {
+	case "shuffle-sites":
+		res.extra = strings.Join(rogues, ",")
+	case "rogue":
+		isR := map[string]bool{}
+		for _, x := range rogues {
+			isR[x] = true
+		}
+		var intact []string
+		for _, n := range c.Aln.Names {
+			if !isR[n] {
+				intact = append(intact, n)
+			}
+		}
+		res.extra = strings.Join(rogues, ",") + ";" + strings.Join(intact, ",")
+	}
 	return
 }
 
@@ -280,28 +346,7 @@ func (c *C10Case) runCLIKind(ctx *Ctx, o *Outcome, fail func(string, string, ...
 	if c.Op == "bootstrap" {
 		return // writes one file per replicate; its invariants are evaluated on the library call
 	}
-	var res opResult
-	res.names, res.seqs = parseFastaText(a.files["stdout.txt"])
-	for i := range res.names {
-		res.rows = append(res.rows, res.names[i]+":"+res.seqs[i])
-	}
-	rogues := strings.Fields(string(a.files["rogues.txt"]))
-	switch c.Op {
-	case "shuffle-sites":
-		res.extra = strings.Join(rogues, ",")
-	case "rogue":
-		isR := map[string]bool{}
-		for _, x := range rogues {
-			isR[x] = true
-		}
-		var intact []string
-		for _, n := range c.Aln.Names {
-			if !isR[n] {
-				intact = append(intact, n)
-			}
-		}
-		res.extra = strings.Join(rogues, ",") + ";" + strings.Join(intact, ",")
-	}
+	res := c.cliResult(a)
 	if len(res.names) == 0 {
 		fail("invariant:empty-output:cli", "goalign %s succeeds and prints no alignment", strings.Join(args, " "))
 		return
@@ -767,7 +812,18 @@ func (c10) Run(ctx *Ctx, ci interface{}) (o Outcome) {
 		colIndex[colOf(os, k)] = k
 	}
 	for k := 0; k < K; k++ {
-		res := c.apply(c.Seed + int64(k))
+		var res opResult
+		if c.ViaCli {
+			var what string
+			var ok bool
+			if res, what, ok = c.applyCLI(ctx, c.Seed+int64(k)); !ok {
+				fail("invariant:unexpected-error:cli:"+c.Op, "%s fails: %s", what, res.err)
+				return
+			}
+			o.Add("support_command_line_executions", 1)
+		} else {
+			res = c.apply(c.Seed + int64(k))
+		}
 		if cl, msg := c.invariant(&res); cl != "" {
 			fail("invariant:"+cl, "%s\nproduct seed %d, result: %s", msg, c.Seed+int64(k), res.key())
 			return
@@ -879,7 +935,12 @@ func (c10) Run(ctx *Ctx, ci interface{}) (o Outcome) {
 			want["first changed column"] = rng(0, L-w+1)
 		}
 	case "shuffle-sites":
-		want["shuffled site"] = rng(0, L)
+		// every column that holds two kinds of characters
+		for j := 0; j < L; j++ {
+			if col := colOf(os, j); strings.Count(col, col[:1]) != len(col) {
+				want["shuffled site"] = append(want["shuffled site"], fmt.Sprint(j))
+			}
+		}
 	}
 	keys := make([]string, 0, len(want))
 	for k := range want {
@@ -895,6 +956,10 @@ func (c10) Run(ctx *Ctx, ci interface{}) (o Outcome) {
 					got = append(got, x)
 				}
 				sort.Strings(got)
+				if c.ViaCli {
+					fail("unreachable-outcome:cli", "%s = %s never occurred in 400 executions of goalign %s with different seeds (seen: %v); every required outcome has probability >= 1/5 per execution, so on correct code the probability of that is below 1e-38", k, v, strings.Join(func() []string { a, _ := c.cliArgs(); return a }(), " "), got)
+					return
+				}
 				fail("unreachable-outcome", "%s = %s never occurred in %d executions with different seeds (seen: %v); on correct code the probability of that is below 1e-45", k, v, K, got)
 				return
 			}
